@@ -55,6 +55,8 @@ def data(rng):
     bl = c15.rand_basis(rng, d)
     while len(bl) < 2 and not SINGLE_MODE:
         bl = c15.rand_basis(rng, d)
+    if rng.random() < 0.1:
+        d, m, Z, bl = c15.square_data_with_linear_functionals(rng, bl)
     return d, m, Z, bl
 
 
